@@ -204,6 +204,10 @@ class CheckC12(core.Check):
                     continue
                 r.stats["builds_judged"] += 1
                 what = "%s role=%s local=%s remote=%s mods=%r resolver=%s dh=%s" % (pat, role, hs, hrs, modstr, res, dh)
+                if not e.ok and e.errkind().startswith("Pattern(") and not any(k.startswith("Pattern(") for k in kinds):
+                    # the *name* was refused by the parser although the grammar allows it: C13's predicate; the builder was never asked
+                    r.foreign_dev("C13", "valid name refused by the parser: %s" % e.res)
+                    continue
                 if not kinds:
                     if not e.ok:
                         r.viol("C12|refused|%s|%s" % (e.res, role), "build refused a sufficient configuration (%s): %s" % (what, e.res))
